@@ -195,7 +195,14 @@ impl Run {
                 .as_array()
                 .unwrap()
                 .iter()
-                .map(|a| PublicKeyCredentialParameters { ty: PublicKeyCredentialType::PublicKey, alg: alg_of(a.as_str().unwrap()) })
+                .map(|a| {
+                    // "u:<alg>": an entry whose credential type string this library does not know
+                    let name = a.as_str().unwrap();
+                    match name.strip_prefix("u:") {
+                        Some(n) => PublicKeyCredentialParameters { ty: PublicKeyCredentialType::Unknown, alg: alg_of(n) },
+                        None => PublicKeyCredentialParameters { ty: PublicKeyCredentialType::PublicKey, alg: alg_of(name) },
+                    }
+                })
                 .collect(),
             exclude_list: if req["excludeGiven"].as_bool().unwrap() { Some(self.descriptors(&req["exclude"])) } else { None },
             extensions,
@@ -326,7 +333,7 @@ impl Run {
         d["at"] = json!(ad.attested.is_some());
         d["ed"] = json!(ad.ext.is_some());
         if let Some(at) = &ad.attested {
-            let fresh = !self.seen_ids.iter().any(|i| *i == at.cred_id);
+            let fresh = !self.seen_ids.iter().any(|i| *i == at.cred_id) && globally_fresh(&at.cred_id);
             self.seen_ids.push(at.cred_id.clone());
             let name = self.sh.lock().unwrap().dict.cred_name_or_new(&at.cred_id);
             d["cred"] = json!(name);
@@ -556,6 +563,14 @@ impl Run {
     pub fn take_log(&mut self) -> Vec<Value> {
         std::mem::take(&mut self.sh.lock().unwrap().log)
     }
+}
+
+/// A credential id must be fresh among ALL ids this process has seen created (across runs): an id space of a few
+/// hundred values shows up within a few dozen registrations.
+pub fn globally_fresh(id: &[u8]) -> bool {
+    static SEEN: std::sync::Mutex<Option<std::collections::HashSet<Vec<u8>>>> = std::sync::Mutex::new(None);
+    let mut g = SEEN.lock().unwrap();
+    g.get_or_insert_with(Default::default).insert(id.to_vec())
 }
 
 pub fn no_info() -> Value {
